@@ -68,6 +68,9 @@ def blocksModel (c : Case) : DictModel :=
     exact := true }
 
 def modelFor (c : Case) : DictModel :=
+  -- large dictionaries (`scale=1`) are answered from the specification: the list-based exact models are
+  -- quadratic in the number of strings
+  if c.geti "scale" 0 = 1 then specModel c else
   match c.kind with
   | "PFC" => pfcModel c
   | "HASHRPDAC" => hashrpdacModel c
